@@ -485,11 +485,14 @@ CK_RV Token::getTokenInfo(CK_TOKEN_INFO_PTR info)
 
 		if (token->getTokenLabel(label))
 		{
+			// Never copy more than the field can hold
+			if (label.size() > 32) label.resize(32);
 			strncpy((char*) info->label, (char*) label.byte_str(), label.size());
 		}
 
 		if (token->getTokenSerial(serial))
 		{
+			if (serial.size() > 16) serial.resize(16);
 			strncpy((char*) info->serialNumber, (char*) serial.byte_str(), serial.size());
 		}
 	}
